@@ -196,6 +196,11 @@ package twig
 //@   ensures ret == e.Err
 
 // the retry with the unresolved name after a relative-name miss is a documented tolerance
+// the context the parent template is rendered in reads on through the chain of contexts the extending
+// template's own context reads through (C11: an included template that extends another still has
+// read access to the including template's variables)
+//@ func (*ExtendsNode).Render props: C11
+//@   atcall[C11] Node.Render a2.parent == ctx.parent
 //@ func (*ExtendsNode).Render props: C17 C10
 //@   flag errretry (*Engine).Load
 // (only a name that was not found is looked for again as it was written: any other failure of the
